@@ -317,7 +317,7 @@ class Ctx:
                     us[m.group(1)] = harness_unwind
         us.update({'vp_memset.0': 600, 'vp_memcpy.0': 130, 'vp_memmove.0': 130, 'vp_memmove.1': 130, 'vp_dup.0': 66,
               'vp_strlen.0': 66, 'vp_libc_memcmp.0': 66, 'vp_libc_memchr.0': 66,
-                   'vp_obj_rank.0': 30, 'vp_mul64x64.0': 12, 'vp_divrem64.0': 12,
+                   'vp_obj_rank.0': 30, 'vp_libc_strcmp.0': 260, 'vp_mul64x64.0': 12, 'vp_divrem64.0': 12,
                    'vp_vec_cr_realloc_insert.0': 10, 'vp_vec_cr_realloc_insert.1': 10})
         us.update(unwindset or {})
         cmd += ['--unwindset', ','.join('%s:%d' % kv for kv in us.items())]
